@@ -12,6 +12,7 @@ import (
 
 	"github.com/shutter-network/rolling-shutter/rolling-shutter/app"
 
+	"verifharness/appdrv"
 	"verifharness/vh"
 )
 
@@ -152,11 +153,115 @@ func sortKV(l []kv) {
 	sort.Slice(l, func(i, j int) bool { return bytes.Compare(l[i].K, l[j].K) < 0 })
 }
 
+// histOracle folds the end-block validator updates over the genesis validator set with the
+// reference Tendermint rule and compares with the application's own map and with the set
+// the property says is intended.
+func histOracle(run *vh.Run, h appdrv.History, rs []appdrv.Resp, finalVals map[string]int64) {
+	if h.Genesis.DevMode {
+		return
+	}
+	vs := map[string]int64{}
+	for _, v := range h.Genesis.Validators {
+		vs[string(v.K)] += v.P
+	}
+	// replay on a second app instance to look at the state after every EndBlock
+	a, _ := appdrv.NewApp(h.Genesis)
+	for i, c := range h.Calls {
+		appdrv.Exec(a, c)
+		if c.Kind != "end" || rs[i].Panic != "" {
+			continue
+		}
+		var ups []kv
+		for _, u := range rs[i].Updates {
+			ups = append(ups, kv{K: u.K, P: u.P})
+		}
+		for j := 1; j < len(ups); j++ {
+			if bytes.Compare(ups[j-1].K, ups[j].K) >= 0 {
+				run.Violate(vh.Violation{Key: "C12:updates-not-strictly-sorted", What: fmt.Sprintf("call %d: validator updates not strictly sorted", i), Case: histCase{"hist", h}, Observed: ups})
+			}
+		}
+		nvs, err := refApply(vs, ups)
+		if err != "" {
+			run.Violate(vh.Violation{Key: "C12:apply-fails:" + err, What: fmt.Sprintf("call %d: Tendermint would refuse the validator updates: %s", i, err), Case: histCase{"hist", h}, Observed: ups})
+			return
+		}
+		vs = nvs
+		appVals := map[string]int64{}
+		for k, p := range a.Validators {
+			appVals[k.Ed25519pubkey] = p
+		}
+		if !sameMap(vs, appVals) {
+			run.Violate(vh.Violation{Key: "C12:fold-differs-from-app", What: fmt.Sprintf("call %d: folding the updates does not give the application's validator map", i), Case: histCase{"hist", h}})
+			return
+		}
+		// intended set: newest started config with its check-in quorum met
+		var eff *app.BatchConfig
+		for j := len(a.Configs) - 1; j >= 0; j-- {
+			if a.Configs[j].Started && a.Configs[j].ValidatorsUpdated {
+				eff = a.Configs[j]
+				break
+			}
+		}
+		if eff != nil {
+			want := map[string]int64{}
+			checked := 0
+			for _, k := range eff.Keypers {
+				if id, ok := a.Identities[k]; ok {
+					want[id.Ed25519pubkey] += 10
+					checked++
+				} else {
+					want[app.NonExistentValidator.Ed25519pubkey] += 10
+				}
+			}
+			if !sameMap(want, appVals) {
+				run.Violate(vh.Violation{Key: "C12:not-intended-set", What: fmt.Sprintf("call %d: validator map is not 10 per keyper of the effective config", i), Case: histCase{"hist", h}})
+			}
+			n := len(eff.Keypers)
+			if 3*checked <= 2*n || uint64(checked) < eff.Threshold {
+				run.Violate(vh.Violation{Key: "C12:less-than-two-thirds-checked-in", What: fmt.Sprintf("call %d: effective config has %d of %d keypers checked in (threshold %d)", i, checked, n, eff.Threshold), Case: histCase{"hist", h}})
+			}
+			run.Dist["effective_config_heights"]++
+		}
+	}
+}
+
+type histCase struct {
+	Kind    string         `json:"kind"`
+	History appdrv.History `json:"history"`
+}
+
+func runHist(run *vh.Run, h appdrv.History) {
+	rs, a, err := appdrv.RunHistory(h)
+	if err != nil {
+		panic(err)
+	}
+	fv := map[string]int64{}
+	for k, p := range a.Validators {
+		fv[k.Ed25519pubkey] = p
+	}
+	histOracle(run, h, rs, fv)
+	id := run.NextID()
+	nup := 0
+	for _, r := range rs {
+		if len(r.Updates) > 0 {
+			nup++
+		}
+	}
+	run.Dist[fmt.Sprintf("hist:blocks_with_updates=%d", min(nup, 4))]++
+	run.AddCase(id, vh.CApp("CHist", appdrv.CaseCoq(id, h, rs, a)), histCase{"hist", h}, fmt.Sprint(h.Calls), nup >= 1)
+}
+
 func main() {
-	run := vh.Start("Verif.Corr.C12", 400)
+	run := vh.Start("Verif.Corr.C12", 60)
+	run.SetPreamble("From Verif Require Import Model.Powermap Model.App Corr.App.\nOpen Scope N_scope.")
 	defer run.Finish()
-	run.Rule = "powermap pairs over a small key universe (exhaustive over 3 keys x powers {absent,10,20} first, then random over 6 keys); non-trivial = at least two validator updates produced; distinct by canonical rendering of the case"
+	run.Rule = "(a) powermap pairs over a small key universe (exhaustive over 3 keys x powers {absent,10,20} first, then random over 6 keys); non-trivial = at least two validator updates produced; distinct by canonical rendering of the case; (b) ABCI histories on the real application (check-ins incl. shared / placeholder / genesis validator keys, config votes, block-seen reports), non-trivial = at least one block with validator updates; oracle: reference Tendermint fold, intended set, two-thirds test after every EndBlock"
 	if run.Replay != "" {
+		var hc histCase
+		if err := run.LoadReplay(&hc); err == nil && hc.Kind == "hist" {
+			runHist(run, hc.History)
+			return
+		}
 		var c diffCase
 		if err := run.LoadReplay(&c); err != nil {
 			panic(err)
@@ -199,5 +304,13 @@ func main() {
 		o := genPM(run.RNG, keys, true)
 		nw := genPM(run.RNG, keys, false)
 		runDiff(run, diffCase{"diff", o, nw})
+	}
+	// histories on the real application: check-ins, config votes, block-seen reports
+	u := appdrv.NewUniverse(8)
+	nh := run.Scale(250, 5000)
+	for i := 0; i < nh; i++ {
+		g := &appdrv.Gen{U: u, R: run.RNG.Fork(), NoJunk: i%2 == 0}
+		h, _, _ := g.RandomHistory(4+run.RNG.Intn(8), 8)
+		runHist(run, h)
 	}
 }
